@@ -297,6 +297,14 @@ def verify_guard(f, s, entry):
             return True, "operand %d derives from `%s`" % (idx, needle)
         return False, "operand %d no longer derives from `%s` (got %s)" % (
             idx, needle, sorted(n.rsplit("::", 1)[-1] for n in names)[:8])
+    if "dom_incr" in g:
+        import re as _re
+        fld = g["dom_incr"]
+        for b, st, v in f.field_stores(fld):
+            if _re.search(r"\.%s Add(WithOverflow)? const:1\)" % fld, f.describe_value(v) or "") \
+                    and f.dominates(b, s["bb"]) and b != s["bb"]:
+                return True, "`%s += 1` of the same activation dominates this `-= 1`" % fld
+        return False, "no dominating `%s += 1` any more" % fld
     if "typestate" in g:
         from lib import typestate
         ts = g["typestate"]
